@@ -316,9 +316,30 @@ func (e *Engine) callFn(fr *Frame, st *State, fn *ssa.Function, args []Value, bo
 		}
 	}
 	if !canInline {
+		// methods of external packages with a pointer receiver dereference it: a nil receiver panics
+		if sig := fn.Signature; sig.Recv() != nil && len(args) > 0 {
+			if _, isPtr := under(sig.Recv().Type()).(*types.Pointer); isPtr {
+				if p, ok := args[0].(PtrV); ok && p.Nil != nil && p.Nil.IsVar() && e.maybeNilRet[p.Nil.VarName()] {
+					e.oblige(st, fr, "safe.nil", ins, Not(p.Nil), "method of an external type called on a possibly nil pointer receiver ("+key+")")
+					st.assume(Not(p.Nil))
+				}
+			}
+		}
 		e.noteAssumption("external call " + key + ": result unconstrained, no effect on modelled memory")
 		res := e.freshResults(st, fn.Signature)
 		e.propagateTaint(st, args, res)
+		// (value, error) results of external constructors: the value may be nil when the error is
+		// not — remembered so that a later method call on it gets a nil-receiver obligation
+		if n := fn.Signature.Results().Len(); n >= 2 && isErrorType(fn.Signature.Results().At(n-1).Type()) {
+			for _, r := range res[:n-1] {
+				if p, ok := r.(PtrV); ok && p.Nil != nil && p.Nil.IsVar() {
+					if e.maybeNilRet == nil {
+						e.maybeNilRet = map[string]bool{}
+					}
+					e.maybeNilRet[p.Nil.VarName()] = true
+				}
+			}
+		}
 		return []Outcome{{st: st, results: res}}
 	}
 	cf := &Frame{fn: fn, env: map[ssa.Value]Value{}, con: con, depth: fr.depth + 1, parent: fr, visits: map[int]int{}}
@@ -495,6 +516,18 @@ func (e *Engine) tryMerge(a, b Outcome, nPC int) (Outcome, bool) {
 		for k := range ks {
 			ns.taintKeysAdd(o, k)
 		}
+	}
+	for k, bts := range a.st.taintRef {
+		if ns.taintRef == nil {
+			ns.taintRef = map[string]uint8{}
+		}
+		ns.taintRef[k] |= bts
+	}
+	for k, bts := range b.st.taintRef {
+		if ns.taintRef == nil {
+			ns.taintRef = map[string]uint8{}
+		}
+		ns.taintRef[k] |= bts
 	}
 	for o, ex := range a.st.sliceExcl {
 		if bx, ok := b.st.sliceExcl[o]; ok {
@@ -1086,6 +1119,15 @@ func (e *Engine) appendOp(fr *Frame, st *State, s SliceV, src Value, ins ssa.Ins
 	elem := s.Elem
 	o := e.newObj("append", elem, true)
 	o.Fresh = true
+	// append is modelled functionally (a new backing array), but a freshness CLAIM about its
+	// result is only justified when growth in place is impossible or harmless: the operand has
+	// no backing array, or that array was itself allocated in this function
+	switch {
+	case s.Obj != nil && s.Obj.MayAlias != nil:
+		o.MayAlias = s.Obj.MayAlias
+	case s.Obj != nil && !s.Obj.Fresh:
+		o.MayAlias = s.Obj
+	}
 	var dst ArrV
 	if s.Obj != nil {
 		dst = e.heapGet(st, s.Obj).(ArrV)
@@ -1144,4 +1186,9 @@ func (e *Engine) appendOp(fr *Frame, st *State, s SliceV, src Value, ins ssa.Ins
 	cp.Hi = maxLen
 	e.noteAssumption("append is modelled functionally (result has a fresh backing array); in-place growth is not visible through other aliases of the operand")
 	return SliceV{Obj: o, Off: s.Off, Len: nl, Cap: cp, Nil: TFalse, Elem: elem}
+}
+
+func isErrorType(t types.Type) bool {
+	n, ok := t.(*types.Named)
+	return ok && n.Obj().Pkg() == nil && n.Obj().Name() == "error"
 }
